@@ -19,7 +19,9 @@ type C13Case struct {
 	//   dotdot-approved / dotdot-tampered   <dir>/a/link/../bin with a/link -> <dir>/b/sub: the kernel runs <dir>/b/bin,
 	//                                       a lexically cleaned path names <dir>/a/bin; the suffix says which file is at b/bin
 	//   symlink-approved / symlink-tampered the path is a symlink to the named file
-	//   relative-approved / relative-tampered  a relative path ("./bin", with Cmd.Dir unset, resolved against the host's cwd)
+	//   relative-approved / relative-tampered  a relative Cmd.Path (Cmd.Dir unset, resolved against the host's cwd)
+	//   argv0-approved / argv0-tampered     a relative Cmd.Path to the named file, with an argv[0] that names the other
+	//                                       file by its absolute path (the kernel runs Cmd.Path, argv[0] is only a name)
 	PathKind string `json:"pathKind,omitempty"`
 	// ViaRunner: the client is configured with a RunnerFunc (no Cmd) and this SecureConfig. There is no
 	// file go-plugin could hash: nothing may be launched (the RunnerFunc must not even be invoked)
